@@ -11,6 +11,24 @@ claimed = {
    'Every reachable state of small closed alphabets (insert/delete over finite key and value universes, persist, persist+reload, cached reads) is visited on the real code and compared with a sorted-map model after every transition; closure (empty frontier) is reached for most configurations, the rest report the depth completed. Covers all key types, value types incl. uncomparable and nil, branch factors 2/3/4/16, both node formats, cache none/big/evicting.',
    'Finite universes (<=9 keys, <=2 values per configuration); state merging relies on the dump hook being a faithful image of the heap (checked: double replay, exact-vs-reduced key cross-check); Go runtime and encoding/json trusted.',
    'DESIGN.md 3.3, 3.4, C01'),
+ 'C04': ('W', 'model_checking', 'explicit-state BFS to closure on the real implementation; oracle = independently built canonical Merkle search tree, encoded and hashed independently',
+   'At every MakeRoot transition of every reachable state the returned Root (link, height, size) is compared with the root of the canonical tree that the reference builder constructs from the entries the tree actually holds (layers and height rule re-derived from the definition, independent codec and BLAKE2b). All histories of the alphabet ending in the same contents are thereby compared with each other and with the reference.',
+   'Finite universes; all 4^5 layer assignments of a user Key type in the thorough tier, 8 representative ones in quick; reference builder/codec/hash are the trusted side.', 'DESIGN.md C04'),
+ 'C05': ('W', 'model_checking', 'explicit-state BFS with reload transitions (direct and via JSON of the Root) at every reachable state',
+   'MakeRoot+LoadMast is a transition available in every state, so reload happens at every reachable state and the reloaded tree keeps being mutated, persisted and reloaded; after each reload entries (per-key Get), Size, Height, BranchFactor and NodeFormat are compared with the source tree. Key/value types, both formats, default JSON and a custom tagged marshaler with registered types, cache none/big.',
+   'Finite universes; configurations whose encoding does not round-trip (v1.1.5binary with KeysLike=nil) are out of the property and not run.', 'DESIGN.md C05'),
+ 'C08': ('W', 'model_checking', 'explicit-state BFS; oracle on every Persist.Store call with an independent hash and codec',
+   'Every Store call issued on every transition of the explored state spaces is checked: name == base64url(BLAKE2b-256(bytes)) by x/crypto (mast uses blake2b-simd), bytes decode and re-encode byte-identically with the independent codec (no capacity/flag/link-kind leakage), name->bytes and root-name->contents tables single-valued across all histories.',
+   'x/crypto BLAKE2b and encoding/json trusted; finite universes.', 'DESIGN.md C08'),
+ 'C09': ('W', 'model_checking', 'explicit-state BFS; every persisted version decoded from the store by the independent codec and checked against the shape invariants',
+   'For every root produced on every MakeRoot transition, all reachable nodes are decoded from the recording store and the invariants of the property (levels, layers per level, strict order, ranges, link slots, no entry-less node except pass-through, recorded size) are evaluated relative to the recorded height; includes adversarial layer assignments through a user Key type and delete-heavy histories.',
+   'Finite universes; reference decoder trusted.', 'DESIGN.md C09'),
+ 'C13': ('W', 'model_checking', 'explicit-state BFS with the base version and modified-key set in the state key; oracle on recorded Store calls and IsDirty',
+   'Every MakeRoot transition is judged against the version the tree was loaded from / last persisted as and the exact set of keys modified since (tracked by the harness, part of the state key): stored names reachable from the new root, nothing written and same root if nothing was modified, no base node rewritten unless a modified key lies in its (closed) key range, at most 2h+2 writes per modified key while the height never changed; IsDirty()==false implies contents == base, in every reachable state.',
+   'Finite universes; key range read as the closed interval between the parent separators (a modified separator restructures both neighbours).', 'DESIGN.md C13'),
+ 'C16': ('W', 'model_checking', 'explicit-state BFS on a cache-less recording store; oracle = Persist.Load call counts per API call',
+   'In every reachable state (every mix of in-memory and persisted nodes) Get of every key and absent probe, Clone, and on every transition Insert/Delete/LoadMast are bounded by the counts the property states, measured as calls to Persist.Load.',
+   'Finite universes (heights up to 3); larger seeded trees in the thorough tier.', 'DESIGN.md C16'),
 }
 not_yet = 'check not built yet in this round (planned in DESIGN.md); will be claimed when its machinery exists'
 checks = []
